@@ -16,7 +16,7 @@
 (* ids are a set), requests are published in application (= commit) order.  *)
 (*                                                                         *)
 (* LookupKey says which key the lookup uses: "user" is the intended one;    *)
-(* "internal" models the pinned tree, which passes the entry's internal     *)
+(* "internal" models the tree before fix d7b7206, which passed the internal  *)
 (* key (user key + 8 byte big-endian inverted version, i.e. 0xff bytes for  *)
 (* small versions) to the trie, so that a prefix longer than the user key   *)
 (* can match the version suffix.                                            *)
